@@ -99,6 +99,11 @@ def make_data(cfg):
             out.append(lvl[:, None] + rng.normal(size=(T, N)) * 0.5)
         return out
     series = []
+    if cfg.get("series_regimes"):
+        # every series lies entirely in one regime: the regime changes exactly at the series boundaries
+        for T, r in zip(cfg["lengths"], cfg["series_regimes"]):
+            series.append(means[r] + (rng.normal(size=(T, N)) @ mix[r].T) * cfg.get("scale", 1.0))
+        return series
     for T in cfg["lengths"]:
         seg = max(4, T // (R + 1))
         x = np.zeros((T, N))
